@@ -4,12 +4,12 @@ CONSTANTS
   MaxRedirect = 65535
   MaxHeader = 255
   Deviations = {}
-  Bug = ""
-  Mode = "lk"
+  Bug = "ZeroNotFirst"
+  Mode = "dims"
   NC = 2
   MaxBody = 3
   MaxPrefix = 2
-  SkipBytes = {0, 128}
+  SkipBytes = {0, 1, 128}
   Variants = {0}
   DimVals = {0, 3}
   MaxW = 2
